@@ -5,6 +5,8 @@ from __future__ import annotations
 import html as _html
 import traceback
 from html.parser import HTMLParser
+import html as html_mod
+import re
 from typing import Any, Dict, List, Optional, Tuple
 
 from vf import core
@@ -50,6 +52,8 @@ def func(a, *args, **kw):
     {func}
 CONST = 3
 {const}
+def ctl2(a):
+    {ctl2}
 def ctl(a):
     """Control docstring about L{{func}} and C{{a}}.
 
@@ -68,7 +72,7 @@ def cases(tier: str, seed: int) -> List[Dict[str, Any]]:
 
 # ---- M-DOC --------------------------------------------------------------------------------------------
 _state: Dict[str, Any] = {'in_parse': None, 'events': []}
-_ctl_cache: Dict[Tuple[str, bool], str] = {}
+_ctl_cache: Dict[Any, str] = {}
 
 
 def worker_init() -> None:
@@ -157,6 +161,11 @@ def _build(s: str, fmt: str, ptypes: bool, which: Optional[List[str]] = None) ->
     opts.verbosity = -10
     system = model.System(opts)
     fill = {k: (repr(s) if (which is None or k in which) else "'plain'") for k in KINDS}
+    # a second control: one of its own field bodies fails to render (a form feed), so it legitimately shows the broken-description
+    # placeholder -- which must not carry anything of its neighbours
+    fill['ctl2'] = repr({'epytext': 'Second control.\n\n@param a: x\x0c y\n', 'restructuredtext': 'Second control.\n\n:param a: x\x0c y\n',
+                         'google': 'Second control.\n\nArgs:\n    a: x\x0c y\n', 'numpy': 'Second control.\n\nParameters\n----------\na\n    x\x0c y\n',
+                         'plaintext': 'Second control.'}[fmt])
     src = TEMPLATE.format(**fill)
     b = system.systemBuilder(system)
     b.addModuleString(src, 'fz')
@@ -164,11 +173,19 @@ def _build(s: str, fmt: str, ptypes: bool, which: Optional[List[str]] = None) ->
     return system
 
 
+_ORDER = [0]
+
+
 def _render(obj: Any) -> Tuple[Dict[str, str], Optional[Tuple[str, BaseException]]]:
     from pydoctor import epydoc2stan
     from pydoctor.stanutils import flatten
     out: Dict[str, str] = {}
-    for name, fn in (('docstring', epydoc2stan.format_docstring), ('summary', epydoc2stan.format_summary), ('toc', epydoc2stan.format_toc)):
+    # the three renderings are asked for in varying order (pages ask for summaries of children before their docstrings, sidebars
+    # for tables of contents first): what is shown must not depend on which came first
+    fns = [('docstring', epydoc2stan.format_docstring), ('summary', epydoc2stan.format_summary), ('toc', epydoc2stan.format_toc)]
+    k = _ORDER[0] % 3
+    fns = fns[k:] + fns[:k]
+    for name, fn in fns:
         try:
             stan = fn(obj)
             out[name] = flatten(stan) if stan is not None else ''
@@ -182,6 +199,8 @@ def _render(obj: Any) -> Tuple[Dict[str, str], Optional[Tuple[str, BaseException
 def _judge(res: core.Res, s: str, fmt: str, ptypes: bool) -> None:
     from vf.mon import msgs
     del _state['events'][:]
+    import zlib as _z
+    _ORDER[0] = _z.crc32(s.encode('utf-8', 'surrogatepass'))
     w = {'docstring': s, 'docformat': fmt, 'process_types': ptypes}
     try:
         system = _build(s, fmt, ptypes)
@@ -211,6 +230,14 @@ def _judge(res: core.Res, s: str, fmt: str, ptypes: bool) -> None:
                 else f'C08:raises:{name}:{type(e).__name__}:{where}'
             res.v(key, f'format_{name} of a {kind} with docstring {s[:80]!r} ({fmt}, process-types={ptypes}) raised {type(e).__name__}: {str(e)[:200]}', **w2)
             continue
+        # a docstring that opens with a line of plain words shows at least those words, whatever else happens to it
+        first = clean.split('\n')[0].strip() if clean else ''
+        second = clean.split('\n')[1] if clean and '\n' in clean else ''
+        if fmt != 'plaintext' and re.fullmatch(r'[A-Za-z][A-Za-z ,]{3,}\.?', first) and obj.docstring and second.strip() == '' and not first.endswith(':'):
+            res.c('plain_first_lines_checked')
+            visible = re.sub(r'\s+', ' ', html_mod.unescape(re.sub(r'<[^>]*>', ' ', outs.get('docstring', ''))))
+            if not all(wd in visible for wd in re.findall(r'[A-Za-z]{4,}', first)):
+                res.v('C08:plain-first-line-not-shown', f'{kind} docstring {s[:80]!r} ({fmt}): its first line {first!r} is plain words, the rendered documentation shows {visible[:120]!r}', **w2)
         events = [ev for ev in _state['events'] if ev[1] == obj.fullName()]
         # a *fatal* error means "the parser gives up" for epytext only (docutils flags errors it recovers from as fatal too)
         body_gave_up = [ev for ev in events if (ev[0] in ('parser-gave-up', 'stan-gave-up') or (ev[0] == 'fatal-error' and fmt == 'epytext')) and ev[2] == 'docstring']
@@ -291,7 +318,20 @@ def _judge(res: core.Res, s: str, fmt: str, ptypes: bool) -> None:
             res.c('independent_reader_problems_observed')
             if 'fz.func' not in system.parse_errors['docstring']:
                 res.v('C08:recoverable-problem-not-reported', f'{fmt} docstring {s[:80]!r}: plain docutils reports {structural[:2]} but fz.func is not in parse_errors', independent_reader=structural[:5], **w)
-    # neighbour differential
+    # neighbour differential (the controls are always rendered in the same order)
+    _ORDER[0] = 0
+    for cname in ('fz.ctl2',):
+        c2 = system.allobjects.get(cname)
+        if c2 is not None:
+            outs2, err2 = _render(c2)
+            key2 = (fmt, ptypes, cname)
+            if key2 not in _ctl_cache:
+                cs2 = _build('plain words', fmt, ptypes)
+                c_outs2, c_err2 = _render(cs2.allobjects[cname])
+                _ctl_cache[key2] = repr((c_outs2, None if c_err2 is None else c_err2[0]))
+            res.c('control_comparisons')
+            if repr((outs2, None if err2 is None else err2[0])) != _ctl_cache[key2]:
+                res.v('C08:neighbour-affected', f'the second control function (one broken field body of its own) renders differently next to docstrings {s[:80]!r} ({fmt})', got=outs2, **w)
     ctl = system.allobjects.get('fz.ctl')
     if ctl is not None:
         outs, err = _render(ctl)
